@@ -6,6 +6,7 @@
 //   D m  dihedral <a,b | a^2, b^2, (ab)^m>    C m  cyclic <a | a^m>
 //   S g  surface group of genus g <a1,b1,..,ag,bg | [a1,b1]...[ag,bg]>
 //   T pqr  triangle group <a,b | a^p, b^q, (ab)^r>, digits p q r
+//   L m  <a,b | a, b^m> (cyclic of order m with a redundant trivial generator)
 //
 //   verif_c12 dump <family> <param> <k>
 //       "G <nr_gens>", "R <w1> ; <w2> ; ..." (relators), then one line per table
@@ -31,6 +32,10 @@ fn presentation(family: &str, p: usize) -> (usize, Vec<Vec<isize>>) {
             (2, vec![vec![1, 1], vec![2, 2], ab])
         }
         "C" => (1, vec![vec![1; p]]),
+        // a generator declared trivial by a relator of length 1: <a,b | a, b^m>
+        "L" => (2, vec![vec![1], vec![2; p]]),
+        // redundant generators: <a,b,c | c a^m, c^-1 b> (infinite cyclic, b = c = a^-m)
+        "R" => { let mut w = vec![3]; w.extend(vec![1; p]); (3, vec![w, vec![-3, 2]]) }
         "S" => {
             let mut w = vec![];
             for i in 0..p as isize { let (a, b) = (2 * i + 1, 2 * i + 2); w.extend([a, b, -a, -b]); }
